@@ -33,6 +33,25 @@ func roundGrid(t *rapid.T) gen.GridSpec {
 	return s
 }
 
+// hugeCase: a ring of 66 000 to 90 000 vertices (more than 2^16: the size of national borders; thresholds, 16 bit counters and
+// pre-sized buffers of the tool are only exercised from there on) that keeps its shape on the requested tile matrices.
+func hugeCase(t *rapid.T) SnapCase {
+	c := SnapCase{Grid: gen.RD, Q: 4, Shape: "huge-smooth"}
+	g := c.Grid.MustBuild()
+	top := rapid.IntRange(9, 14).Draw(t, "hugeTop")
+	c.IDs = []int{top, top - rapid.IntRange(1, 2).Draw(t, "hugeStep"), top - 3}
+	if rapid.Bool().Draw(t, "hugeOrder") {
+		c.IDs[0], c.IDs[2] = c.IDs[2], c.IDs[0]
+	}
+	c.Flags = gen.DrawFlags(t)
+	c.Flags.Ignore = false
+	ring, _ := gen.BigSmooth(t, rapid.IntRange(66000, 90000).Draw(t, "hugeN"), 4)
+	if poly, anchor, ok := placeShape(t, g, []int{top}, [][]P{ring}, 4); ok {
+		c.Poly, c.Anchor = poly, anchor
+	}
+	return c
+}
+
 func genC08(t *rapid.T) C08Case {
 	var c C08Case
 	if rapid.Bool().Draw(t, "validPolygon") {
@@ -95,6 +114,9 @@ func oracleC08(c C08Case) (o report.Outcome) {
 		o.NonTrivial = true
 		o.Label("levels differ in outcome")
 	}
+	if c.Shape == "huge-smooth" {
+		o.Label("huge ring (>= 66 000 vertices)")
+	}
 	n := len(c.IDs)
 	for mask := 1; mask < 1<<n; mask++ {
 		var s []int
@@ -147,3 +169,13 @@ func oracleC08(c C08Case) (o report.Outcome) {
 }
 
 func TestC08(t *testing.T) { report.Run(t, specC08, genC08, oracleC08) }
+
+// C08Huge: the same oracle on rings beyond 2^16 vertices.
+var specC08Huge = report.Spec{Property: "C08", Check: "C08Huge",
+	Rule: "a smooth closed curve of 66 000-90 000 vertices about two pixels apart (nothing collapses at the deepest requested tile matrix) on NetherlandsRDNewQuad, three ids between 6 and 14 in either order x flags; oracle of C08 (every subset of the ids against each id alone). " +
+		"Sizes at which the tool needs minutes per polygon (rings of this length that fold onto themselves: splitRing is quadratic there) are not generated. Non-trivial as C08.",
+	Assumptions: specC08.Assumptions}
+
+func TestC08Huge(t *testing.T) {
+	report.Run(t, specC08Huge, func(t *rapid.T) C08Case { return C08Case{SnapCase: hugeCase(t), Valid: true} }, oracleC08)
+}
